@@ -93,7 +93,7 @@ func (x *Exec) intrinsic(name string, fn *ssa.Function, args []Value) (Value, bo
 			panic("verifParse made symbolic decisions")
 		}
 		x.pc, x.decision, x.prefix, x.work = savedPC, savedDec, savedPre, savedWork
-		freeze(v, map[interface{}]bool{})
+		x.freeze(v, map[interface{}]bool{})
 		x.parseCache[src] = v
 		return v, true
 	case "verifByte":
@@ -234,6 +234,16 @@ func (x *Exec) intrinsic(name string, fn *ssa.Function, args []Value) (Value, bo
 		x.rangeSite = int(sext(args[0].(*Term).c, 64))
 		x.rangeCount = 0
 		return nil, true
+	case "verifInEngine":
+		return Bool(true), true
+	case "verifSnapshot":
+		// "" while the shared (frozen) objects hold their original values, "modified" otherwise
+		for _, u := range x.undo {
+			if same := x.sameVal(u.c.v, u.old); !(same.isC && same.c == 1) {
+				return strOf("modified"), true
+			}
+		}
+		return strOf(""), true
 	case "verifNativeRepeat":
 		return BV(1, 64), true
 	case "verifRangeCount":
